@@ -1101,6 +1101,107 @@ Section UnionDanger.
     - intros s tau l t HDs Ht. unfold u_seek_danger_g. destruct (N.leb_spec DOCSET_TERMINATED t); [|lia].
       exists DOCSET_TERMINATED. cbn [fst snd]. repeat split; [lia|assumption].
   Qed.
+
+  (* ---------- the shape after the fix of F134 (u_seek_danger_r): with children that never dangle the extra
+     re-synchronisation `seek(doc())` keeps every child's representation ---------- *)
+  Lemma resync1_RC t c lc : RC c lc -> RC (resync1 C t c) lc.
+  Proof.
+    intros Hc. unfold resync1. destruct (N.leb_spec t (doc C c)); [|assumption].
+    pose proof (c_wf _ _ _ _ CC _ _ Hc) as Hwf. pose proof (c_doc _ _ _ _ CC _ _ Hc) as Hd.
+    rewrite <- (ds_seek_le (doc C c) lc) by (rewrite Hd; lia).
+    apply (c_seek _ _ _ _ CC _ _ _ Hc); [lia|]. rewrite Hd. now apply ds_doc_le_T.
+  Qed.
+  Lemma resync_prefix_RC t n : forall ds lcs, Forall2 RC ds lcs -> Forall2 RC (resync_prefix C t n ds) lcs.
+  Proof.
+    induction n as [|n IH]; intros ds lcs HF; [destruct ds; exact HF|]. destruct HF as [|c lc ds lcs Hc HF]; [constructor|].
+    cbn [resync_prefix]. constructor; [now apply resync1_RC|now apply IH].
+  Qed.
+
+  Lemma danger_out_hit_r s t l lcs n : t < DOCSET_TERMINATED -> u_oof C s = false -> u_w C s <= u_doc C s -> u_doc C s < t -> u_w C s + 4096 <= t ->
+    wf_docs l -> Forall2 RC (u_docsets C s) lcs -> (forall x, t <= x -> (In x l <-> inchild lcs x)) ->
+    let '(hit, mn, ds) := children_danger C t (u_docsets C s) DOCSET_TERMINATED in
+    hit = true ->
+    In t l /\ R_u (u_seek C t (upd C s (resync_prefix C t n ds) (u_bitsets C s) (u_bucket C s) (u_w C s) (u_doc C s) (u_oof C s))) (ds_seek t l).
+  Proof.
+    intros HT H1 Hw Hd Hh Hwf HF HM.
+    pose proof (children_danger_ok t HT _ _ HF DOCSET_TERMINATED HT (N.le_refl _)) as HC.
+    destruct (children_danger C t (u_docsets C s) DOCSET_TERMINATED) as [[[|] mn] ds']; [intros _|discriminate].
+    destruct HC as [lcs' [I1 [I2 I3]]]. split; [apply HM; [lia|assumption]|].
+    apply (seek_out_ok _ t lcs'); cbn [upd u_oof u_docsets u_doc u_w]; try assumption; try lia;
+      [now apply resync_prefix_RC|now apply wf_docs_seek|].
+    intros x. rewrite ds_seek_In by apply Hwf. split.
+    + intros [Hx Htx]. split; [|assumption]. apply (sub_inchild t lcs' lcs x I2 Htx). now apply HM.
+    + intros [Hx Htx]. split; [|assumption]. apply HM; [assumption|]. now apply (sub_inchild t lcs' lcs x I2 Htx).
+  Qed.
+
+  Lemma u_danger_ok_r s tau l t : D_u s tau l -> tau <= t -> t < DOCSET_TERMINATED ->
+    match u_seek_danger_r C true t s with
+    | (SdFound, s') => In t l /\ R_u s' (ds_seek t l)
+    | (SdLower b, s') => ~ In t l /\ t < b /\ b <= ds_doc (ds_seek t l) /\ D_u s' t (ds_seek t l)
+    end.
+  Proof.
+    intros HDs Htau HT. unfold u_seek_danger_r. destruct (N.leb_spec DOCSET_TERMINATED t); [lia|]. cbn [andb].
+    assert (Hmod : u_w C s <= u_doc C s -> u_doc C s < t -> (t + 2 ^ 32 - u_w C s) mod 2 ^ 32 = t - u_w C s).
+    { intros Ha Hb. pose proof DOCSET_TERMINATED_u32 as HT32. change (2 ^ 32) with 4294967296 in *. dlia. }
+    destruct HDs as [HR|[t0 [lcs [Ht0 [Ht0T [Hd0 [Hw0 [Hh0 [H1 [Hwf [HF HM]]]]]]]]]]].
+    - pose proof (HW _ _ HR) as Hwf. pose proof (HD _ _ HR) as Hdoc.
+      destruct (N.leb_spec t (u_doc C s)) as [Hle|Hlt].
+      + destruct (N.eqb_spec t (u_doc C s)) as [E|E].
+        * rewrite ds_seek_le by lia. split; [|assumption]. rewrite E, Hdoc. apply ds_doc_In. lia.
+        * rewrite ds_seek_le by lia. repeat split; try lia; [|now left].
+          intros Hin. pose proof (ds_doc_le_In l t (proj1 Hwf) Hin). lia.
+      + destruct HR as [L [HP [[-> [_ [Hw1 Hw2]]]|[_ [_ [HdT _]]]]]]; [|lia].
+        unfold is_in_horizon. rewrite (Hmod Hw1 Hlt). change UNION_HORIZON with 4096.
+        assert (HR : R_u s (u_doc C s :: L)) by (exists L; split; [assumption|left; tauto]).
+        destruct (N.ltb_spec (t - u_w C s) 4096) as [Hin|Hout].
+        * pose proof (HS t _ _ ltac:(lia) HR ltac:(lia)) as HR'. pose proof (HD _ _ HR') as Hd'. pose proof (HW _ _ HR') as Hwf'.
+          destruct (N.eqb_spec (u_doc C (u_seek C t s)) t) as [E|E].
+          -- split; [|assumption]. apply (ds_seek_In_sub t). rewrite <- E at 1. rewrite Hd'. apply ds_doc_In. lia.
+          -- assert (Hn : ~ In t (u_doc C s :: L)). { intros Hi. apply E. rewrite Hd'. apply ds_seek_head_In; [apply Hwf|assumption]. }
+             split; [assumption|]. rewrite <- Hd'. split; [|split; [lia|now left]].
+             destruct (ds_seek_head t _ Hwf) as [Hh|[Hh _]]; [|lia]. rewrite <- Hd' in Hh. lia.
+        * destruct HP as [H1 H2 H3 H4 H5 [lcs [[HF HA] HM]]].
+          assert (HM' : forall x, t <= x -> (In x (u_doc C s :: L) <-> inchild lcs x)).
+          { intros x Hx. cbn [In]. rewrite HM. split; [|tauto]. intros [E|[[dl [Hdl [_ ->]]]|Hc]]; [lia|lia|exact Hc]. }
+          pose proof (danger_out s t _ lcs HT H1 Hw1 Hlt ltac:(lia) Hwf HF HM') as HO.
+          pose proof (danger_out_hit_r s t _ lcs (num_missed C t (u_docsets C s)) HT H1 Hw1 Hlt ltac:(lia) Hwf HF HM') as HOr.
+          destruct (children_danger C t (u_docsets C s) DOCSET_TERMINATED) as [[[|] mn] ds']; [exact (HOr eq_refl)|].
+          destruct HO as [O1 [O2 [O3 O4]]]. repeat split; try assumption. now right.
+    - destruct (N.leb_spec t (u_doc C s)); [lia|]. unfold is_in_horizon. rewrite (Hmod Hw0 ltac:(lia)). change UNION_HORIZON with 4096.
+      destruct (N.ltb_spec (t - u_w C s) 4096); [lia|].
+      pose proof (danger_out s t l lcs HT H1 Hw0 ltac:(lia) ltac:(lia) Hwf HF (fun x _ => HM x)) as HO.
+      pose proof (danger_out_hit_r s t l lcs (num_missed C t (u_docsets C s)) HT H1 Hw0 ltac:(lia) ltac:(lia) Hwf HF (fun x _ => HM x)) as HOr.
+      destruct (children_danger C t (u_docsets C s) DOCSET_TERMINATED) as [[[|] mn] ds']; [exact (HOr eq_refl)|].
+      destruct HO as [O1 [O2 [O3 O4]]]. repeat split; try assumption. now right.
+  Qed.
+
+  Theorem union_contract_r : contract (union_impl_r C true) true R_u D_u.
+  Proof.
+    pose proof union_contract as U.
+    constructor; cbn [st doc advance seek seek_danger fill_buffer fill_bitset count size ok union_impl_r].
+    - exact (c_wf _ _ _ _ U).
+    - exact (c_ok _ _ _ _ U).
+    - exact (c_size _ _ _ _ U).
+    - exact (c_doc _ _ _ _ U).
+    - exact (c_advance _ _ _ _ U).
+    - exact (c_seek _ _ _ _ U).
+    - exact (c_fill_buffer _ _ _ _ U).
+    - exact (c_count _ _ _ _ U).
+    - exact (c_fill_bitset _ _ _ _ U).
+    - exact (c_RD _ _ _ _ U).
+    - exact (c_Dwf _ _ _ _ U).
+    - exact (c_Dok _ _ _ _ U).
+    - exact (c_Dmono _ _ _ _ U).
+    - exact (c_Ddoc _ _ _ _ U).
+    - exact (c_Dterm _ _ _ _ U).
+    - exact u_danger_ok_r.
+    - intros s l t HR Ht. unfold u_seek_danger_r.
+      assert (HdT : u_doc C s <= DOCSET_TERMINATED) by (rewrite (HD _ _ HR); apply ds_doc_le_T; exact (HW _ _ HR)).
+      destruct (N.leb_spec DOCSET_TERMINATED t); [lia|]. cbn [andb]. destruct (N.leb_spec t (u_doc C s)); [|lia].
+      destruct (N.eqb_spec t (u_doc C s)); [lia|]. exists (u_doc C s). cbn [fst snd]. tauto.
+    - intros s tau l t HDs Ht. unfold u_seek_danger_r. destruct (N.leb_spec DOCSET_TERMINATED t); [|lia].
+      exists DOCSET_TERMINATED. cbn [fst snd]. repeat split; [lia|assumption].
+  Qed.
 End UnionDanger.
 
 (* ---------- consequences ---------- *)
@@ -1118,7 +1219,7 @@ Proof. vm_compute. reflexivity. Qed.
 (* the pinned shape of the source is the guarded one *)
 Theorem union_contract_current_source (C : impl) RC DC : contract C true RC DC -> (forall c tau l, DC c tau l -> RC c l) ->
   contract (union_impl C) true (R_u C RC) (D_u C RC).
-Proof. intros CC Hnd. exact (union_contract C RC DC CC Hnd). Qed.
+Proof. intros CC Hnd. exact (union_contract_r C RC DC CC Hnd). Qed.
 
 (* nesting: `+a +(x y z)` = Intersection [leaf a; BufferedUnion of leaves], children boxed as a sum (Box<dyn Scorer>),
    on every valid program; the intersection drives the union with seek_danger *)
